@@ -59,6 +59,7 @@ def iE : Expr → List Item
     else [kwI "sprite", .sp] ++ iE a ++ [.sp, .tk o.tok, .sp] ++ iE b
   | .field a => kwI "field" :: .sp :: iE a
   | .call f as => .tk (.id f) :: .tk (.p .lp) :: (iArgs as ++ [.tk (.p .rp)])
+  | .mcall o m as => iE o ++ (.tk (.p .lp) :: .tk (.id m) :: ((if as.isEmpty then [] else .tk (.p .comma) :: .sp :: iArgs as) ++ [.tk (.p .rp)]))
   | .list as => .tk (.p .lb) :: (iArgs as ++ [.tk (.p .rb)])
   | .plist as => if as.isEmpty then [.tk (.p .lb), .tk (.p .colon), .tk (.p .rb)] else .tk (.p .lb) :: (iPairs as ++ [.tk (.p .rb)])
   | .key v => [kwI "the", .sp, .tk (.id v)]
@@ -206,6 +207,37 @@ theorem chain_the (x : Spec.Name) (hid : idOk x = true) (rest : List Char) (h : 
   simp only [render, List.flatMap_nil, List.nil_append]
   exact okNext_safeHd _ _ (by simpa [ItemOk] using hid) h
 
+theorem prTail_cons : ∀ (es : List Expr) (e : Expr), prTail (e :: es) = .p .comma :: prArgs (e :: es)
+  | [], e => by simp [prTail, prArgs]
+  | e2 :: es, e => by
+    have ih := prTail_cons es e2
+    simp only [prTail] at ih ⊢
+    simp [prArgs, ih]
+
+theorem prTail_eq (as : List Expr) : prTail as = if as.isEmpty then [] else .p .comma :: prArgs as := by
+  cases as with
+  | nil => rfl
+  | cons e es => simp [prTail_cons]
+
+/-- the receiver of a method call is a variable: one identifier item -/
+theorem recv_iE (o : Expr) (h : recvOk o = true) : ∃ nm, idOk nm = true ∧ iE o = [.tk (.id nm)] ∧ mE o = nm ∧ prE o = [.id nm] := by
+  obtain ⟨nm, _, hid, _, hshape⟩ := recvOk_spec o h
+  rcases hshape with rfl | rfl | rfl <;> exact ⟨nm, hid, rfl, rfl, rfl⟩
+
+theorem chain_id_lp (nm : Spec.Name) (X : List Item) (rest : List Char) (hid : idOk nm = true) :
+    Chain (.tk (.id nm) :: .tk (.p .lp) :: X) rest = Chain X rest := by
+  have e : render (.tk (.p .lp) :: X) ++ rest = '(' :: (render X ++ rest) := by simp [render, Item.text, P.text]
+  have h1 := okNext_safe (.tk (.id nm)) '(' (render X ++ rest) (by simpa [ItemOk] using hid) safe_lp
+  simp only [Chain, e, h1, Bool.true_and]
+  simp [okNext]
+
+theorem chain_id_rp (nm : Spec.Name) (X : List Item) (rest : List Char) (hid : idOk nm = true) :
+    Chain (.tk (.id nm) :: .tk (.p .rp) :: X) rest = Chain X rest := by
+  have e : render (.tk (.p .rp) :: X) ++ rest = ')' :: (render X ++ rest) := by simp [render, Item.text, P.text]
+  have h1 := okNext_safe (.tk (.id nm)) ')' (render X ++ rest) (by simpa [ItemOk] using hid) safe_rp
+  simp only [Chain, e, h1, Bool.true_and]
+  simp [okNext]
+
 mutual
 theorem render_iE : ∀ (e : Expr), FragE e = true → render (iE e) = mE e
   | .int k, _ => by simp [iE, render, Item.text, mE]
@@ -233,7 +265,13 @@ theorem render_iE : ∀ (e : Expr), FragE e = true → render (iE e) = mE e
     simp only [FragE, Bool.and_eq_true] at hf
     simp only [iE, render_cons, render_append, render_iArgs as hf.2, mE]
     simp [render, Item.text, S, P.text]
-  | .mcall _ _ _, hf => by simp [FragE] at hf
+  | .mcall o m as, hf => by
+    simp only [FragE, Bool.and_eq_true] at hf
+    obtain ⟨nm, _, hio, hmo, _⟩ := recv_iE o hf.1.1
+    have hr := render_iArgs as hf.2
+    unfold render at hr
+    cases hemp : as.isEmpty <;>
+      simp [iE, mE, hio, hmo, hemp, render_cons, render_append, hr, render, Item.text, S, P.text]
   | .list as, hf => by
     simp only [FragE] at hf
     simp only [iE, render_cons, render_append, render_iArgs as hf, mE]
@@ -335,7 +373,11 @@ theorem itoks_iE : ∀ (e : Expr), FragE e = true → itoks (iE e) = prE e
   | .call f as, hf => by
     simp only [FragE, Bool.and_eq_true] at hf
     simp [iE, itoks, itoks_append, itoks_iArgs as hf.2, prE]
-  | .mcall _ _ _, hf => by simp [FragE] at hf
+  | .mcall o m as, hf => by
+    simp only [FragE, Bool.and_eq_true] at hf
+    obtain ⟨nm, _, hio, _, hpo⟩ := recv_iE o hf.1.1
+    cases hemp : as.isEmpty <;>
+      simp [iE, hio, hpo, hemp, itoks, itoks_append, itoks_iArgs as hf.2, prE, prTail_eq]
   | .list as, hf => by
     simp only [FragE] at hf
     simp [iE, itoks, itoks_append, itoks_iArgs as hf, prE]
@@ -432,7 +474,7 @@ theorem mE_ne_nil : ∀ (e : Expr), FragE e = true → mE e ≠ []
   | .me, hf => by simp [FragE] at hf
   | .field _, _ => by simp [mE, S]
   | .call f as, _ => by simp [mE, S]
-  | .mcall _ _ _, hf => by simp [FragE] at hf
+  | .mcall _ _ _, _ => by simp [mE, S]
   | .list _, _ => by simp [mE, S]
   | .plist as, _ => by cases h : as.isEmpty <;> simp [mE, h, S]
   | .the t k as, hf => by
@@ -534,7 +576,23 @@ theorem chain_iE : ∀ (e : Expr), FragE e = true → ∀ (rest : List Char), Sa
     · have hv := chain_iArgs as hfl (render [.tk (.p .rp)] ++ rest) ⟨')', rest, rfl, safe_rp⟩
       rw [chain_append, hv]
       simp [Chain, okNext]
-  | .mcall _ _ _, hf, _, _ => by simp [FragE] at hf
+  | .mcall o m as, hf, rest, h => by
+    simp only [FragE, Bool.and_eq_true] at hf
+    obtain ⟨⟨hro, hm⟩, hfl⟩ := hf
+    obtain ⟨nm, hid, hio, _, _⟩ := recv_iE o hro
+    simp only [iE, hio, List.cons_append, List.nil_append]
+    rw [chain_id_lp nm _ rest hid]
+    have hmi : ItemOk (.tk (.id m)) = true := by simpa [ItemOk] using hm
+    cases hemp : as.isEmpty with
+    | true =>
+      simp only [if_true, List.nil_append]
+      rw [chain_id_rp m _ rest hm]
+      rfl
+    | false =>
+      simp only [Bool.false_eq_true, if_false, List.cons_append]
+      have hv := chain_iArgs as hfl (render [.tk (.p .rp)] ++ rest) ⟨')', rest, rfl, safe_rp⟩
+      rw [chain_cons_comma_sp _ _ _ hmi, chain_append, hv]
+      simp [Chain, okNext]
   | .list as, hf, rest, h => by
     simp only [FragE] at hf
     simp only [iE, Chain, Bool.and_eq_true]
@@ -750,6 +808,10 @@ theorem mE_not_lp' (e : Expr) (hf : FragE e = true) (hn : notInfix e = true) : s
   | movie v => simp [mE, startsWith, S, List.isPrefixOf]
   | oprop v o => simp [mE, startsWith, S, List.isPrefixOf]
   | chunk k a b d => cases k <;> simp [mE, ChunkKind.tag, startsWith, S, List.isPrefixOf]
+  | mcall o m as =>
+    simp only [FragE, Bool.and_eq_true] at hf
+    obtain ⟨nm, hidn, _, hmo, _⟩ := recv_iE o hf.1.1
+    simpa [mE, hmo, List.append_assoc] using hid nm hidn _
   | the t k as =>
     obtain ⟨r, hr⟩ := mE_the_head t k as hf
     rw [hr]
@@ -791,14 +853,36 @@ theorem itoks_iCond (c : Expr) (hf : FragE c = true) : itoks (iCond c) = wCond c
       simpa [iCond, wCond, hop] using this
   | _ => simpa [iCond, wCond] using itoks_iE _ hf
 
+/-- the items of a command call, in the three printed forms (`mCall`) -/
+def iCall (f : Spec.Name) (as : List Expr) : List Item :=
+  if f = "sound".toList then
+    (match as with
+     | .sym m :: rest => .tk (.id f) :: .sp :: .tk (.id m) :: .sp :: iArgs rest
+     | _ => .tk (.id f) :: (if as.isEmpty then [] else .sp :: iArgs as))
+  else if f = "go".toList then
+    (match as with
+     | [.sym w] => if goWordX w then [.tk (.id f), .sp, .tk (.id w)] else .tk (.id f) :: (if as.isEmpty then [] else .sp :: iArgs as)
+     | _ => .tk (.id f) :: (if as.isEmpty then [] else .sp :: iArgs as))
+  else .tk (.id f) :: (if as.isEmpty then [] else .sp :: iArgs as)
+
+theorem iCall_plain (f : Spec.Name) (as : List Expr) (h : plainCallName f = true) :
+    iCall f as = .tk (.id f) :: (if as.isEmpty then [] else .sp :: iArgs as) := by
+  simp only [plainCallName, Bool.and_eq_true, bne_iff_ne, ne_eq] at h
+  simp only [iCall, h.1, h.2, if_false]
+
+theorem goWordX_spec (w : Spec.Name) (h : goWordX w = true) : goWord w = true := by
+  simp only [goWordX, Bool.or_eq_true, beq_iff_eq] at h
+  rcases h with (rfl | rfl) | rfl <;> decide
+
 mutual
 def iS : Nat → Stmt → List Item
   | ind, .set lv v => iIndent ind ++ ([kwI "set", .sp] ++ (iE lv ++ ([.sp, .tk (.p .eq), .sp] ++ (iE v ++ [.tk .nl]))))
-  | ind, .call f as => iIndent ind ++ (.tk (.id f) :: ((if as.isEmpty then [] else .sp :: iArgs as) ++ [.tk .nl]))
+  | ind, .call f as => iIndent ind ++ (iCall f as ++ [.tk .nl])
   | ind, .exit => iIndent ind ++ [kwI "exit", .tk .nl]
   | ind, .put m v lv => iIndent ind ++ ([kwI "put", .sp] ++ (iE v ++ ([.sp, kwI m.tag, .sp] ++ (iE lv ++ [.tk .nl]))))
   | ind, .delete t => iIndent ind ++ ([kwI "delete", .sp] ++ (iE t ++ [.tk .nl]))
   | ind, .hilite t => iIndent ind ++ ([kwI "hilite", .sp] ++ (iE t ++ [.tk .nl]))
+  | ind, .mcall o m as => iIndent ind ++ (iE o ++ (.sp :: .tk (.id m) :: ((if as.isEmpty then [] else .tk (.p .comma) :: .sp :: iArgs as) ++ [.tk .nl])))
   | ind, .ifThen c t e =>
     iIndent ind ++ ([kwI "if", .sp] ++ (iE c ++ ([.sp, kwI "then", .tk .nl] ++ (iSs (ind + 1) t ++
       ((if e.isEmpty then [] else iIndent ind ++ ([kwI "else", .tk .nl] ++ iSs (ind + 1) e)) ++
@@ -826,9 +910,25 @@ theorem render_iS (ind : Nat) (s : Stmt) (hf : FragS s = true) : render (iS ind 
     simp only [iS, render_append, render_indent, render_iE lv (fragLv_fragE lv hf.1), render_iE v hf.2, mS]
     simp [render, Item.text, kwI, S, P.text]
   | call f as =>
-    simp only [FragS, Bool.and_eq_true] at hf
-    cases hemp : as.isEmpty <;>
-      simp [iS, hemp, render_append, render_cons, render_indent, render_iArgs as hf.2, mS, Item.text, S, render_nil]
+    simp only [FragS, Bool.or_eq_true] at hf
+    rcases hf with (hf | hf) | hf
+    · simp only [callPlain, Bool.and_eq_true] at hf
+      cases hemp : as.isEmpty <;>
+        simp [iS, iCall_plain f as hf.1.1.2, mCall_plain f as hf.1.1.2, hemp, render_append, render_cons, render_indent,
+          render_iArgs as hf.2, mS, Item.text, S, render_nil]
+    · simp only [callSound, Bool.and_eq_true, beq_iff_eq] at hf
+      obtain ⟨rfl, hf⟩ := hf
+      split at hf
+      · rename_i m rest
+        simp only [Bool.and_eq_true] at hf
+        simp [iS, iCall, mS, mCall, render_append, render_cons, render_indent, render_iArgs rest hf.2, Item.text, S, render_nil]
+      · cases hf
+    · simp only [callGo, Bool.and_eq_true, beq_iff_eq] at hf
+      obtain ⟨rfl, hf⟩ := hf
+      split at hf
+      · rename_i w
+        simp [iS, iCall, mS, mCall, hf, render_append, render_cons, render_indent, Item.text, S, render_nil]
+      · cases hf
   | exit => simp [iS, render_append, render_cons, render_indent, mS, Item.text, kwI, S, render_nil]
   | put m v lv =>
     simp only [FragS, Bool.and_eq_true] at hf
@@ -842,6 +942,14 @@ theorem render_iS (ind : Nat) (s : Stmt) (hf : FragS s = true) : render (iS ind 
     simp only [FragS] at hf
     simp only [iS, render_append, render_indent, render_iE t (fragTg_fragE t 0 hf), mS]
     simp [render, Item.text, kwI, S]
+  | mcall o m as =>
+    simp only [FragS, Bool.and_eq_true] at hf
+    obtain ⟨nm, _, hio, hmo, _⟩ := recv_iE o hf.1.1
+    have hr := render_iArgs as hf.2
+    have hi := render_indent ind
+    unfold render at hr hi
+    cases hemp : as.isEmpty <;>
+      simp [iS, mS, hio, hmo, hemp, render_cons, render_append, hi, hr, render, Item.text, S, P.text]
   | _ => simp [FragS] at hf
 
 theorem plainCall_pr (f : Spec.Name) (as : List Expr) (h : plainCallName f = true) : prCallStmt f as = .id f :: prArgs as := by
@@ -856,14 +964,30 @@ theorem itoks_iS (ind : Nat) (s : Stmt) (hf : FragS s = true) : itoks (iS ind s)
     simp only [FragS, Bool.and_eq_true] at hf
     simp [iS, itoks_append, itoks_indent, itoks_iE lv (fragLv_fragE lv hf.1), itoks_iE v hf.2, prS, itoks, kwI, kw]
   | call f as =>
-    simp only [FragS, Bool.and_eq_true] at hf
-    cases hemp : as.isEmpty with
-    | true =>
-      have : as = [] := List.isEmpty_iff.mp hemp
-      subst this
-      simp [iS, itoks_append, itoks_indent, itoks, prS, plainCall_pr f [] hf.1.1.2, prArgs]
-    | false =>
-      simp [iS, hemp, itoks_append, itoks_indent, itoks, itoks_iArgs as hf.2, prS, plainCall_pr f as hf.1.1.2]
+    simp only [FragS, Bool.or_eq_true] at hf
+    rcases hf with (hf | hf) | hf
+    · simp only [callPlain, Bool.and_eq_true] at hf
+      cases hemp : as.isEmpty with
+      | true =>
+        have : as = [] := List.isEmpty_iff.mp hemp
+        subst this
+        simp [iS, iCall_plain f [] hf.1.1.2, itoks_append, itoks_indent, itoks, prS, plainCall_pr f [] hf.1.1.2, prArgs]
+      | false =>
+        simp [iS, iCall_plain f as hf.1.1.2, hemp, itoks_append, itoks_indent, itoks, itoks_iArgs as hf.2, prS, plainCall_pr f as hf.1.1.2]
+    · simp only [callSound, Bool.and_eq_true, beq_iff_eq] at hf
+      obtain ⟨rfl, hf⟩ := hf
+      split at hf
+      · rename_i m rest
+        simp only [Bool.and_eq_true] at hf
+        simp [iS, iCall, itoks_append, itoks_indent, itoks, itoks_iArgs rest hf.2, prS, prCallStmt]
+      · cases hf
+    · simp only [callGo, Bool.and_eq_true, beq_iff_eq] at hf
+      obtain ⟨rfl, hf⟩ := hf
+      split at hf
+      · rename_i w
+        have hsound : ¬ ("go".toList = "sound".toList) := by decide
+        simp [iS, iCall, hf, itoks_append, itoks_indent, itoks, prS, prCallStmt, hsound, goWordX_spec w hf]
+      · cases hf
   | exit => simp [iS, itoks_append, itoks_indent, itoks, prS, kwI, kw]
   | put m v lv =>
     simp only [FragS, Bool.and_eq_true] at hf
@@ -874,6 +998,11 @@ theorem itoks_iS (ind : Nat) (s : Stmt) (hf : FragS s = true) : itoks (iS ind s)
   | hilite t =>
     simp only [FragS] at hf
     simp [iS, itoks_append, itoks_indent, itoks_iE t (fragTg_fragE t 0 hf), prS, itoks, kwI, kw]
+  | mcall o m as =>
+    simp only [FragS, Bool.and_eq_true] at hf
+    obtain ⟨nm, _, hio, _, hpo⟩ := recv_iE o hf.1.1
+    cases hemp : as.isEmpty <;>
+      simp [iS, hio, hpo, hemp, itoks, itoks_append, itoks_indent, itoks_iArgs as hf.2, prS, prTail_eq]
   | _ => simp [FragS] at hf
 
 /-- an expression followed by an item list whose text starts with a blank / newline -/
@@ -910,9 +1039,32 @@ theorem chain_iS (ind : Nat) (s : Stmt) (hf : FragS s = true) (l : List Item) (r
     rw [chain_cons_sp _ _ _ (by decide), chain_iE_then lv (fragLv_fragE lv hf.1) ' ' safe_sp _ _ (render_sp_head _), chain_sp,
       chain_cons_sp _ _ _ (by decide), chain_append, hv, Bool.true_and, chain_nl]
   | call f as =>
-    simp only [FragS, Bool.and_eq_true] at hf
-    obtain ⟨⟨⟨hid, _⟩, _⟩, hfl⟩ := hf
-    simp only [iS, List.append_assoc, List.cons_append, chain_indent]
+    simp only [FragS, Bool.or_eq_true] at hf
+    rcases hf with (hf | hf) | hf
+    rotate_left
+    · simp only [callSound, Bool.and_eq_true, beq_iff_eq] at hf
+      obtain ⟨rfl, hf⟩ := hf
+      split at hf
+      · rename_i m more
+        simp only [Bool.and_eq_true] at hf
+        have hmi : ItemOk (.tk (.id m)) = true := by simpa [ItemOk] using hf.1
+        simp only [iS, iCall, if_true, List.append_assoc, List.cons_append, List.nil_append, chain_indent]
+        have hv := chain_iArgs more hf.2 (render (.tk .nl :: l) ++ rest) ⟨'\n', _, rfl, safe_nl⟩
+        rw [chain_cons_sp _ _ _ (by decide), chain_cons_sp _ _ _ hmi, chain_append, hv, Bool.true_and, chain_nl]
+      · cases hf
+    · simp only [callGo, Bool.and_eq_true, beq_iff_eq] at hf
+      obtain ⟨rfl, hf⟩ := hf
+      split at hf
+      · rename_i w
+        have hwi : ItemOk (.tk (.id w)) = true := by simpa [ItemOk] using goWordX_idOk w hf
+        have hsound : ¬ ("go".toList = "sound".toList) := by decide
+        simp only [iS, iCall, hsound, if_false, if_true, hf, List.append_assoc, List.cons_append, List.nil_append, chain_indent]
+        rw [chain_cons_sp _ _ _ (by decide)]
+        exact chain_cons_nl _ _ _ hwi
+      · cases hf
+    simp only [callPlain, Bool.and_eq_true] at hf
+    obtain ⟨⟨⟨hid, hpc⟩, _⟩, hfl⟩ := hf
+    simp only [iS, iCall_plain f as hpc, List.append_assoc, List.cons_append, chain_indent]
     cases hemp : as.isEmpty with
     | true =>
       simp only [if_true, List.nil_append, List.cons_append]
@@ -941,6 +1093,21 @@ theorem chain_iS (ind : Nat) (s : Stmt) (hf : FragS s = true) (l : List Item) (r
     simp only [iS, List.append_assoc, List.cons_append, List.nil_append, chain_indent]
     have hv := chain_iE t (fragTg_fragE t 0 hf) (render (.tk .nl :: l) ++ rest) ⟨'\n', _, rfl, safe_nl⟩
     rw [chain_cons_sp _ _ _ (by decide), chain_append, hv, Bool.true_and, chain_nl]
+  | mcall o m as =>
+    simp only [FragS, Bool.and_eq_true] at hf
+    obtain ⟨⟨hro, hm⟩, hfl⟩ := hf
+    obtain ⟨nm, hid, hio, _, _⟩ := recv_iE o hro
+    have hmi : ItemOk (.tk (.id m)) = true := by simpa [ItemOk] using hm
+    simp only [iS, hio, List.append_assoc, List.cons_append, List.nil_append, chain_indent]
+    rw [chain_cons_sp _ _ _ (by simpa [ItemOk] using hid)]
+    cases hemp : as.isEmpty with
+    | true =>
+      simp only [if_true, List.nil_append]
+      exact chain_cons_nl _ _ _ hmi
+    | false =>
+      simp only [Bool.false_eq_true, if_false, List.cons_append]
+      have hv := chain_iArgs as hfl (render (.tk .nl :: l) ++ rest) ⟨'\n', _, rfl, safe_nl⟩
+      rw [chain_cons_comma_sp _ _ _ hmi, chain_append, hv, Bool.true_and, chain_nl]
   | _ => simp [FragS] at hf
 
 theorem render_iSs (ind : Nat) : ∀ (ss : List Stmt), FragSs ss = true → render (iSs ind ss) = mSs ind ss
@@ -1009,6 +1176,10 @@ theorem mE_not_lp (e : Expr) (hf : FragE e = true) (hn : notInfix e = true) : st
   | movie v => simp [mE, startsWith, S, List.isPrefixOf]
   | oprop v o => simp [mE, startsWith, S, List.isPrefixOf]
   | chunk k a b d => cases k <;> simp [mE, ChunkKind.tag, startsWith, S, List.isPrefixOf]
+  | mcall o m as =>
+    simp only [FragE, Bool.and_eq_true] at hf
+    obtain ⟨nm, hidn, _, hmo, _⟩ := recv_iE o hf.1.1
+    simpa [mE, hmo, List.append_assoc] using hid nm hidn _
   | the t k as =>
     cases as with
     | cons x xs =>
@@ -1054,7 +1225,7 @@ theorem render_iX : ∀ (s : Stmt), FragX s = true → ∀ (ind : Nat), render (
   | .put m v lv, hf, ind => render_iS ind _ (by simpa only [FragX] using hf)
   | .delete t, hf, ind => render_iS ind _ (by simpa only [FragX] using hf)
   | .hilite t, hf, ind => render_iS ind _ (by simpa only [FragX] using hf)
-  | .mcall .., hf, _ => by simp [FragX] at hf
+  | .mcall o m as, hf, ind => render_iS ind _ (by simpa only [FragX] using hf)
   | .tell .., hf, _ => by simp [FragX] at hf
   | .repeatIn .., hf, _ => by simp [FragX] at hf
   | .exitRepeat, hf, _ => by simp [FragX] at hf
@@ -1093,7 +1264,7 @@ theorem itoks_iX : ∀ (s : Stmt), FragX s = true → ∀ (ind : Nat), itoks (iS
   | .put m v lv, hf, ind => by rw [itoks_iS ind _ (by simpa only [FragX] using hf)]; simp [prS, prSW]
   | .delete t, hf, ind => by rw [itoks_iS ind _ (by simpa only [FragX] using hf)]; simp [prS, prSW]
   | .hilite t, hf, ind => by rw [itoks_iS ind _ (by simpa only [FragX] using hf)]; simp [prS, prSW]
-  | .mcall .., hf, _ => by simp [FragX] at hf
+  | .mcall o m as, hf, ind => by rw [itoks_iS ind _ (by simpa only [FragX] using hf)]; simp [prS, prSW]
   | .tell .., hf, _ => by simp [FragX] at hf
   | .repeatIn .., hf, _ => by simp [FragX] at hf
   | .exitRepeat, hf, _ => by simp [FragX] at hf
@@ -1157,7 +1328,7 @@ theorem chain_iX : ∀ (s : Stmt), FragX s = true → ∀ (ind : Nat) (l : List 
   | .put m v lv, hf, ind, l, rest => chain_iS ind _ (by simpa only [FragX] using hf) l rest
   | .delete t, hf, ind, l, rest => chain_iS ind _ (by simpa only [FragX] using hf) l rest
   | .hilite t, hf, ind, l, rest => chain_iS ind _ (by simpa only [FragX] using hf) l rest
-  | .mcall .., hf, _, _, _ => by simp [FragX] at hf
+  | .mcall o m as, hf, ind, l, rest => chain_iS ind _ (by simpa only [FragX] using hf) l rest
   | .tell .., hf, _, _, _ => by simp [FragX] at hf
   | .repeatIn .., hf, _, _, _ => by simp [FragX] at hf
   | .exitRepeat, hf, _, _, _ => by simp [FragX] at hf
